@@ -1,5 +1,5 @@
 SPECIFICATION Spec
-CONSTANTS NT = 2 NS = 2 Kinds = {"sum", "cost"}
+CONSTANTS NT = 1 NS = 3 Kinds = {"sum", "cost"}
 CONSTANT MetricVals <- ValsQuick
 CONSTANT Deltas <- DeltasAll
 INVARIANT NormalisedAtMostOne
